@@ -353,5 +353,17 @@ pub fn ptr_tables(table: &[Value]) -> Value {
     if !(Cc::ptr_eq(&a, &a2) && !Cc::ptr_eq(&a, &b) && a == b) {
         bad.push(json!({"method": "ptr_eq"}));
     }
+    #[cfg(feature = "weak")]
+    {
+        let wa = a.downgrade();
+        let wa2 = wa.clone();
+        let wb = b.downgrade();
+        let n1: weak::Weak<i32> = weak::Weak::new();
+        let n2: weak::Weak<i32> = Default::default();
+        rows += 1;
+        if !(weak::Weak::ptr_eq(&wa, &wa2) && !weak::Weak::ptr_eq(&wa, &wb) && weak::Weak::ptr_eq(&n1, &n2) && !weak::Weak::ptr_eq(&n1, &wa) && n2.upgrade().is_none()) {
+            bad.push(json!({"method": "Weak::ptr_eq / Weak::default"}));
+        }
+    }
     json!({"rows": rows, "bad": bad})
 }
